@@ -233,7 +233,7 @@ func (f *Frame) expr(st *State, e ast.Expr) Term {
 			m := f.expr(st, e.X)
 			k := f.convert(f.expr(st, e.Index), f.typeOf(e.Index), xt.Key())
 			_, vs := vc.mapSorts(xt)
-			return vc.mapRead(st, m, k, vs)
+			return f.typed(st, vc.mapRead(st, m, k, vs), xt.Elem())
 		case *types.Slice, *types.Array:
 			s := f.expr(st, e.X)
 			i := f.expr(st, e.Index)
@@ -609,7 +609,37 @@ func (f *Frame) typeFacts(st *State, v Term, t types.Type) []Term {
 		if a, ok := f.subst(t).Underlying().(*types.Array); ok {
 			return []Term{Eq(SLen(v), IntLit(a.Len()))}
 		}
-		return []Term{app(SBool, ">=", SLen(v), IntLit(0))}
+		// lengths are non-negative and far below math.MaxInt (a slice of that length cannot exist)
+		facts := []Term{app(SBool, ">=", SLen(v), IntLit(0)), app(SBool, "<", SLen(v), Term{"4611686018427387904", SInt})}
+		if es := sliceElemSort(v.Sort); isSliceSort(es) && f.vc.quantDepth == 0 {
+			// the same for the elements of a slice of slices
+			i := Term{"i!", SInt}
+			e := Select(SArr(v), i)
+			facts = append(facts, Forall([]Term{i}, And(app(SBool, ">=", SLen(e), IntLit(0)), app(SBool, "<", SLen(e), Term{"4611686018427387904", SInt})), SLen(e)))
+		}
+		if f.vc.quantDepth == 0 {
+			// elements that are references (or interfaces holding references) are nil or allocated
+			var et types.Type
+			switch u := f.subst(t).Underlying().(type) {
+			case *types.Slice:
+				et = u.Elem()
+			case *types.Array:
+				et = u.Elem()
+			}
+			if et != nil {
+				i := Term{"i!", SInt}
+				e := Select(SArr(v), i)
+				switch et.Underlying().(type) {
+				case *types.Pointer, *types.Map:
+					facts = append(facts, Forall([]Term{i}, f.vc.isAllocOrNil(st, e), e))
+				case *types.Interface:
+					facts = append(facts, Forall([]Term{i}, f.vc.isAllocOrNil(st, IRef(e)), e))
+				}
+			}
+		}
+		return facts
+	case v.Sort == SIface:
+		return []Term{f.vc.isAllocOrNil(st, IRef(v))}
 	case v.Sort == SInt:
 		switch u := f.subst(t).Underlying().(type) {
 		case *types.Pointer, *types.Map:
